@@ -222,8 +222,10 @@ def _decode_thl_table(
     rec_input: ReconciliationInput,
     table: THLTable,
 ) -> Generator[ReconciliationOutput, None, None]:
-    if not table[root_object][root_species].infos():
-        yield ReconciliationOutput(rec_input, {root_object: root_species})
+    if root_object.is_leaf():
+        if not table[root_object][root_species].is_infinite():
+            yield ReconciliationOutput(rec_input, {root_object: root_species})
+
         return
 
     for info in table[root_object][root_species].infos():
